@@ -46,4 +46,7 @@ def check(run):
               'mode / concentration are not the (eigenvector, eigenvalue) pair returned by get_pca(covariance)', construct='R-SEL::ComplexWatsonTrainer._fit::pair')
     # integration models: both streams, exponent weighted, added (shared instance with C01)
     c01.check_models(run, A)
+    from .. import reshape as _rs
+    _n = _rs.check_reshapes(run, A, [D + 'gcacgmm::GCACGMMTrainer.fit', D + 'vmfcacgmm::VMFCACGMMTrainer.fit', D + 'gcacgmm::GCACGMM.predict', D + 'vmfcacgmm::VMFCACGMM.predict'])
+    run.floor('reshapes of the integration models with resolved axis order', _n, 4)
     run.floor('recognised orientation instances', ck.resolved + n, 25)
